@@ -41,6 +41,7 @@ def _install(cfg):
     evset = c.get('events', 'ebp')
     mode = c.get('mode', 'record')
     K = c.get('k', -1)
+    AT = c.get('at')
     action = c.get('action', 'await')
     st = {'armed': False, 'tid': None, 'n': 0, 'done': False, 'fd': None, 'depth_end': None}
     moncache = {}
@@ -78,7 +79,18 @@ def _install(cfg):
             st['n'] = i + 1
             return
         st['n'] = i + 1
-        if i != K:
+        if AT is not None:
+            # address the point by code location + occurrence number (robust against unrelated
+            # timing-dependent events shifting the global index)
+            if kind != AT['kind'] or code.co_name != AT['func'] or os.path.basename(code.co_filename) != AT['file']:
+                return
+            ln = pos if (kind == 'line' or pos_is_line) else _line_of(code, pos)
+            if ln != AT['line'] or (AT.get('x') is not None and extra != AT.get('x')):
+                return
+            st['occ'] = st.get('occ', 0) + 1
+            if st['occ'] != AT['occ']:
+                return
+        elif i != K:
             return
         info = describe(kind, code, pos, extra, pos_is_line)
         info['i'] = i
